@@ -22,22 +22,15 @@ def check(ctx):
     observers.transparent_loop(ctx, 'R12', pf, loop, var, what='printer')
     n += 1
     # stream writer
-    sw = [f for f in repo.find_funcs(module='dataflows.processors.stream') if f.is_generator and f.all_params != ['package']
-          and row_loops(f)]
-    if len(sw) != 1:
-        raise AnalysisError('stream: row writer generator not found')
+    roles = commits.stream_roles(ctx)
+    sw = [roles['rows']]
     loop, var, _ = observers.single_row_loop(ctx, sw[0])
-    observers.transparent_loop(ctx, 'R12', sw[0], loop, var, effects=('write',), what='stream writer')
+    observers.transparent_loop(ctx, 'R12', sw[0], loop, var, effects=(roles['write'].name,), what='stream writer')
     n += 1
     # the write helper really writes the object and a newline
-    wr = [f for f in repo.find_funcs(module='dataflows.processors.stream', name='write')]
-    if len(wr) != 1:
-        raise AnalysisError('stream.write helper not found')
-    wcalls = [c for c in own_nodes(wr[0].node) if isinstance(c, ast.Call) and isinstance(c.func, ast.Attribute)
-              and c.func.attr == 'write']
-    run.check(len(wcalls) == 1 and bool(set(wr[0].all_params) & {x.id for x in ast.walk(wcalls[0]) if isinstance(x, ast.Name)}),
-              'R12', wr[0].where, wr[0].qualname, 'file.write(ejson.dumps(obj) + newline)',
-              'the stream write helper does not write its argument')
+    okw, whyw = commits.one_line_per_object(ctx, roles['write'])
+    run.check(okw, 'R12', roles['write'].where, roles['write'].qualname, 'file.write(ejson.dumps(obj) + newline)',
+              'the stream write helper does not write its argument as one line: ' + whyw)
     # file dumper rows_processor
     rp = commits.rows_processor(ctx)
     loop, var, _ = observers.single_row_loop(ctx, rp)
@@ -92,7 +85,7 @@ def check(ctx):
     run.floor('R12', n, 7, 'observer loops')
 
     from rules import independence
-    independence.r28_functions(ctx, [('dataflows.processors.stream:stream.res_writer', {}), (rp.qualname, {}),
+    independence.r28_functions(ctx, [(roles['rows'].qualname, {}), (rp.qualname, {}),
                                      (rc.qualname, {'__kinds__': ('COUNTER',)}),
                                      ('dataflows.processors.printer:printer.func',
                                       {'__kinds__': ('COUNTER', 'BUFFER', 'FLAG')})])
@@ -103,7 +96,7 @@ def check(ctx):
     commits.r15_checkpoint_rename(ctx)
     commits.r15_descriptor_after_loop(ctx)
     sf = commits.stream_func(ctx)
-    preds = {'WRITE_PKG': lambda x: isinstance(x, ast.Call) and isinstance(x.func, ast.Name) and x.func.id == 'write'
+    preds = {'WRITE_PKG': lambda x: isinstance(x, ast.Call) and isinstance(x.func, ast.Name) and x.func.id == roles['write'].name
              and x.args and 'descriptor' in u(x.args[0]),
              'YIELD_PKG': lambda x: isinstance(x, ast.Yield) and framework._is_pkg_yield(ctx, x, sf),
              'YIELD_RES': lambda x: isinstance(x, ast.Yield) and not framework._is_pkg_yield(ctx, x, sf),
@@ -140,7 +133,7 @@ def check(ctx):
             sigs, _ = resloop_signature(repo, res, rl)
             for s in sigs:
                 consumed = bool(s.drains) or any(k in ('identity', 'unwrap', 'wrap') for k, _ in s.yields)
-                run.check(consumed and s.term == FALL and len(s.yields) == 1, 'R6a', where(repo, rl.node), rl.fi.qualname,
+                run.check(consumed and s.term in (FALL, 'continue') and len(s.yields) == 1, 'R6a', where(repo, rl.node), rl.fi.qualname,
                           stream.fmt_atoms(s.atoms), 'class-style step does not forward each upstream resource exactly once')
 
     # 4. finalizer: exactly once, after the last row
@@ -151,7 +144,7 @@ def check(ctx):
     inner = [f for f in repo.functions.values() if f.parent is gi and not isinstance(f.node, ast.Lambda)]
     if gi is None or len(inner) != 1:
         raise AnalysisError('finalizer.get_iterator.func not found')
-    f = inner[0]
+    f = ctx.N(inner[0])
     preds = {'ALL': lambda x: isinstance(x, ast.YieldFrom),
              'CALLBACK': lambda x: isinstance(x, ast.Call) and pseudo(x.func) == 'self.callback'}
     pes, problems = check_order(ctx, 'R15f', f, preds, before=[('ALL', 'CALLBACK')], forbid_ctx=['CALLBACK'],
